@@ -331,6 +331,7 @@ class Run:
         trig = self.model.trigger(k)
         ctx = trig + self.after_reput() + self.mode
         info = None
+        was_maybe = self.cls == "Disk" and k in self.model.maybe
         try:
             if self.cls == "Disk":
                 before = ls_pkl(self.dir)
@@ -345,7 +346,7 @@ class Run:
             if self.cls == "Disk" and self.max_size is not None:
                 need = len(before) + (0 if trig.startswith("resident") else 1) - self.max_size
                 extra = "/evict>=2" if need >= 2 else ""
-            if self.cls == "Hybrid" and dur == 0 and not any(self.model.dur.values()):
+            if self.cls == "Hybrid" and self.model.val and not any(self.model.dur.values()):
                 extra = "/all-durations-zero"
             return self.fail(exc_sig(e, f"raise:{self.C}.put") + "/" + ctx + extra,
                              f"put({k!r}) raised {exc_msg(e)}; model: {self.model.describe()}")
@@ -357,6 +358,8 @@ class Run:
         err = self.model.check_put(k, val, dur, obs, info)
         if err:
             return self.fail(f"evict:{self.C}.put/{ctx}:{err[0]}", err[1])
+        if self.cls == "Disk" and was_maybe:
+            self.reput = True
         if trig.startswith("resident"):
             self.reput = True
             self.v.count("reput_resident")
